@@ -13,7 +13,15 @@ import (
 )
 
 func genBsdiffPair(rt *rapid.T) (old, nw []byte, desc string) {
-	switch rapid.IntRange(0, 5).Draw(rt, "pairkind") {
+	switch rapid.IntRange(0, 6).Draw(rt, "pairkind") {
+	case 6: // old file a whole number of cache chunks long, a small change shortly before its end
+		old = Bytes(rapid.Uint64().Draw(rt, "oseed"), rapid.IntRange(1, 9).Draw(rt, "ochunks")*32*KiB)
+		nw = append([]byte{}, old...)
+		nw[len(nw)-1-rapid.IntRange(0, 300).Draw(rt, "tailoff")] ^= 0x41
+		if rapid.Bool().Draw(rt, "tailgrow") {
+			nw = append(nw, Bytes(7, rapid.IntRange(1, 5000).Draw(rt, "tailextra"))...)
+		}
+		return old, nw, "chunk-multiple old, change near its end"
 	case 0, 1: // tiny strings over a small alphabet
 		alpha := rapid.IntRange(1, 4).Draw(rt, "alpha")
 		gen := func(label string) []byte {
